@@ -872,6 +872,7 @@ var precedence = map[itemType]int{
 //   http://www.engr.mun.ca/~theo/Misc/exp_parsing.htm
 func (t *tree) parseExpr(prec int) ast.Node {
 	t.nest()
+	var levels = 1
 	n := t.parseExprFirstTerm()
 	var tok item
 	for {
@@ -882,14 +883,18 @@ func (t *tree) parseExpr(prec int) ast.Node {
 		}
 		q++
 		n = newBinaryOpNode(tok, n, t.parseExpr(q))
+		// (every further operator of a chain puts the tree built so far one
+		// level deeper: 1 + 1 + 1 + ... nests as deeply as ((...)) does.)
+		t.nest()
+		levels++
 	}
 	if prec == 0 && tok.typ == itemTernIf {
 		n = t.parseTernary(n)
-		t.depth--
+		t.depth -= levels
 		return n
 	}
 	t.backup()
-	t.depth--
+	t.depth -= levels
 	return n
 }
 
